@@ -20,7 +20,7 @@ import (
 // C08 A session survives errors: a failed statement leaves no trace but its globals.
 //
 // Generated: sessions in which statements that fail to parse or fail at run
-// time (every error class, at top level, at call depth 1-300, in loop bodies,
+// time (every error class, at top level, at call depth 1-20000, in loop bodies,
 // in suspended generators, in nested generators, in child contexts, in zipped
 // iterators, in conditions; several in a row) are mixed with statements that
 // call functions, run loops and read the globals. Oracle (twin): the same
